@@ -184,4 +184,9 @@ pub(crate) fn get_missing_files<S>(
 #[allow(missing_docs, unused_imports, dead_code, clippy::all, clippy::pedantic, clippy::nursery)]
 pub mod verif_hooks {
     use super::*;
+
+    /// `get_tree_packs` (crate-private): the ids of all tree packs listed by the index files.
+    pub fn tree_packs<S: Open>(repo: &Repository<S>) -> RusticResult<BTreeSet<PackId>> {
+        get_tree_packs(repo)
+    }
 }
